@@ -536,6 +536,9 @@ func genVal(r *hlib.Rng, t *Ty, mode int, top bool) *Val {
 			if val.K == "nil" || val.K == "unset" {
 				continue
 			}
+			if n == 1 {
+				val = wrapPtr(r, val) // pointer / pointer-to-pointer / typed nil pointer as a map value
+			}
 			if vt == nil {
 				vt = val.T
 			} else if vt.Coq() != val.T.Coq() {
@@ -847,4 +850,112 @@ func genTarget(r *hlib.Rng, t *Ty, mode int, top bool) *GTy {
 		return TStruct(names, tags, ts)
 	}
 	return TK("str")
+}
+
+// ---- documentation tables as data: every documented Unmarshal target and Marshal source per native type ----
+
+// DocTargets: the target Go types the documentation of gocql.Unmarshal lists for a native column type
+// (varint is absent from that table; the integer targets are used for it)
+func DocTargets(id int) []*GTy {
+	switch {
+	case IsTextID(id):
+		return []*GTy{TK("str"), TK("bytes"), TKN("str", true), TKN("bytes", true)}
+	case id == 0x04:
+		return []*GTy{TK("bool"), TKN("bool", true)}
+	case isIntID(id):
+		ts := []*GTy{TK("big"), TK("str")}
+		for k := IK(0); k < 10; k++ {
+			ts = append(ts, TInt(k, k%3 == 0))
+		}
+		return ts
+	case id == 0x08:
+		return []*GTy{TK("f32"), TKN("f32", true)}
+	case id == 0x07:
+		return []*GTy{TK("f64"), TKN("f64", true)}
+	case id == 0x06:
+		return []*GTy{TK("dec")}
+	case id == 0x12:
+		return []*GTy{TInt(I64, false), TK("dur"), TInt(I64, true)}
+	case id == 0x0B:
+		return []*GTy{TInt(I64, false), TK("time")}
+	case id == 0x0C:
+		return []*GTy{TK("str"), TK("bytes"), TK("uuid"), TK("arr16")}
+	case id == 0x0F:
+		return []*GTy{TK("str"), TK("bytes"), TK("uuid"), TK("arr16"), TK("time")}
+	case id == 0x10:
+		return []*GTy{TK("ip"), TK("str")}
+	case id == 0x11:
+		return []*GTy{TK("time"), TK("str")}
+	case id == 0x15:
+		return []*GTy{TK("cqldur")}
+	}
+	return nil
+}
+
+// DocSources: one generated value for each Go source type the documentation of gocql.Marshal lists for
+// a native column type (string sources for inet / date / duration excepted: outside the model)
+func DocSources(r *hlib.Rng, id int) []*Val {
+	fit := func(k IK) *big.Int { // a value of kind k that fits the column
+		for i := 0; i < 50; i++ {
+			z := RandInKind(r, k)
+			if _, ok := specNative(id, &CV{K: "int", Z: z}); ok {
+				return z
+			}
+		}
+		return big.NewInt(int64(r.Intn(100)))
+	}
+	switch {
+	case IsTextID(id):
+		return []*Val{VStr(false, randUTF8(r)), VBytes(false, r.Bytes(r.Intn(9))), VStr(true, randUTF8(r)), VBytes(true, r.Bytes(1+r.Intn(9)))}
+	case id == 0x04:
+		return []*Val{VBool(false, r.Bool()), VBool(true, r.Bool())}
+	case isIntID(id):
+		var vs []*Val
+		for j := 0; j < 3; j++ {
+			k := IK(r.Intn(10))
+			vs = append(vs, VInt(k, r.Chance(30), fit(k)))
+		}
+		vs = append(vs, VStr(false, fit(I64).String()))
+		if id == 0x02 || id == 0x05 || id == 0x0E {
+			vs = append(vs, VBig(fit(I64)))
+		}
+		return vs
+	case id == 0x08:
+		return []*Val{VF32(false, uint32(r.U64())), VF32(true, f32Specials[r.Intn(len(f32Specials))])}
+	case id == 0x07:
+		return []*Val{VF64(false, r.U64()), VF64(true, f64Specials[r.Intn(len(f64Specials))])}
+	case id == 0x06:
+		return []*Val{VDec(RandBigInt(r), int32(r.Intn(40)-10))}
+	case id == 0x12:
+		return []*Val{VInt64(I64, false, int64(r.U64()%86400000000000)), VDur(int64(r.U64() % 86400000000000))}
+	case id == 0x0B:
+		return []*Val{VInt64(I64, false, randInt64(r)), RandTime(r), PreEpochTime(r)}
+	case id == 0x0C, id == 0x0F:
+		b := r.Bytes(16)
+		b[6], b[8] = b[6]&0x0f|0x10, b[8]&0x3f|0x80
+		return []*Val{VUUID(b), VArr16(b), VBytes(false, b), VStr(false, uuidString(hlib.NewRng(7), b))}
+	case id == 0x10:
+		m := make([]byte, 16)
+		m[10], m[11] = 0xff, 0xff
+		copy(m[12:], r.Bytes(4))
+		return []*Val{VIP(r.Bytes(4)), VIP(r.Bytes(16)), VIP(m)}
+	case id == 0x11:
+		return []*Val{VInt64(I64, false, int64(r.Intn(400000000)-200000000)*1000+int64(r.Intn(1000))), RandTime(r), PreEpochTime(r)}
+	case id == 0x15:
+		return []*Val{VInt64(I64, false, randInt64(r)), VDur(randInt64(r)), VCqlDur(int32(RandInKind(r, I32).Int64()), int32(RandInKind(r, I32).Int64()), randInt64(r))}
+	}
+	return nil
+}
+
+// PreEpochTime: an instant before 1970 with a sub-day and a sub-second part
+func PreEpochTime(r *hlib.Rng) *Val {
+	sec := -int64(r.Pick(1, 59, 3599, 3600, 43200, 86399, 86401, 172799, 31535999, 1000000007, 2208988800))
+	if r.Chance(30) {
+		sec = -int64(r.Intn(2000000000)) - 1
+	}
+	v := VTime(sec, r.Pick(0, 1, 999999, 1000000, 1000001, 500000000, 999000000, 999999999))
+	if r.Chance(30) {
+		v.Zone = int(r.Pick(3600, -7200, 19800, -43200))
+	}
+	return v
 }
